@@ -32,11 +32,12 @@ theorem afterConsume_clear (s : State) (m : Mapping) :
   fun x hx => (afterConsume_pass_clear s m x hx).2
 
 /-- (D5 fix) in a clean state whose pass-through keys `m` does not mention — the state right after the
-first consumption — `release_absorbed_keys` and the second consumption are no-ops -/
+first consumption — `release_absorbed_keys` and the second consumption are no-ops
+(restated with the fix of D7: the condition is `producesActionKey m`, it was `isActionMapping m`) -/
 theorem addPhase2_clean {s : State} (k : Key) (m : Mapping) (h : Clean s)
     (hp : ∀ x, x ∈ s.pass → x ∉ m.frm ∧ x ∉ m.to) :
-    addPhase2 s k m = if isActionMapping m then releaseActionMappings s else (s, []) := by
-  cases ha : isActionMapping m
+    addPhase2 s k m = if producesActionKey m then releaseActionMappings s else (s, []) := by
+  cases ha : producesActionKey m
   · simp [addPhase2_nonaction s k m ha]
   · have hsa : shouldAbsorb s k = true := by simp [shouldAbsorb, h.trig]
     rw [addPhase2_absorb s k m ha hsa, releaseAbsorbedKeys_clean (releaseActionMappings_clean h)]
@@ -49,7 +50,7 @@ theorem addPhase2_clean {s : State} (k : Key) (m : Mapping) (h : Clean s)
 theorem addPhase2_clean_frame {s : State} (k : Key) (m : Mapping) (h : Clean s) :
     Clean (addPhase2 s k m).1 ∧ (addPhase2 s k m).1.inp = s.inp ∧ (addPhase2 s k m).1.active = s.active := by
   have f := releaseActionMappings_frame s
-  cases ha : isActionMapping m
+  cases ha : producesActionKey m
   · rw [addPhase2_nonaction s k m ha]; exact ⟨h, rfl, rfl⟩
   · have hsa : shouldAbsorb s k = true := by simp [shouldAbsorb, h.trig]
     rw [addPhase2_absorb s k m ha hsa, releaseAbsorbedKeys_clean (releaseActionMappings_clean h)]
